@@ -101,6 +101,7 @@ type Sched struct {
 	draining bool
 	foreign  map[int64]bool
 	stamp    int64
+	idleTotal time.Duration
 	born     map[any]int
 }
 
@@ -446,7 +447,16 @@ func (s *Sched) enabled() (en []*Thread, lastEnabled bool) {
 		lastEnabled = true
 	}
 	n0 := len(en)
-	for _, t := range s.threads {
+	// round-robin: the default continues with the enabled thread that follows the last runner in cyclic id
+	// order (delay bounding: a thread that is skipped goes to the end of the line, so one deviation buys a
+	// whole round of delay), lower prio classes first
+	start := 0
+	if s.last != nil {
+		start = s.last.ID + 1
+	}
+	n := len(s.threads)
+	for k := 0; k < n; k++ {
+		t := s.threads[(start+k)%n]
 		if t.state == stParked && t != s.last {
 			en = append(en, t)
 		}
@@ -544,6 +554,7 @@ func (s *Sched) Run() bool {
 				}
 				idleRounds++
 				idle += step
+				s.idleTotal += step
 				s.logf("idle: advance virtual time by %v", step)
 				time.Sleep(step)
 				continue
@@ -829,4 +840,15 @@ func keyRank(s *Sched, k any) string {
 		return fmt.Sprintf("p%012d", n)
 	}
 	return "v" + fmt.Sprint(k)
+}
+
+// IdleTime returns how much virtual time has passed because every thread was blocked (explicit tick
+// alternatives, which model a slow scheduler rather than waiting, are not counted). A call that returns at the
+// same IdleTime at which its cancellation happened did not wait for any timer or for anybody else's progress.
+func IdleTime() time.Duration {
+	s := S
+	if s == nil {
+		return 0
+	}
+	return s.idleTotal
 }
